@@ -43,6 +43,19 @@ impl Check for BusCheck {
     fn run_case(&self, ctx: &Ctx, idx: u64, out: &mut Outcome) {
         let rng = crate::prng::Rng::derive(ctx.seed, 0xB05, idx);
         let mut profile = (self.profile)();
+        if self.id == "C11" && idx % 4 == 3 {
+            // "afterwards a well-behaved connection is still served correctly": every fourth
+            // history is one of the well-behaved workloads with more peers that die in every way
+            use crate::bus::gen::Op;
+            let fs: [fn() -> Profile; 5] = [profiles::calls, profiles::registry, profiles::events, profiles::channels, profiles::listeners];
+            profile = fs[((idx / 4) % 5) as usize]();
+            for (op, w) in profile.weights.iter_mut() {
+                if matches!(op, Op::DisconnectDrop | Op::DisconnectMute | Op::DisconnectClose) {
+                    *w *= 3;
+                }
+            }
+            out.count("histories_with_well_behaved_profile", 1);
+        }
         if ctx.tier == Tier::Thorough && idx % 4 == 3 {
             profile.ops *= 3;
         }
@@ -116,7 +129,7 @@ pub const C11: BusCheck = BusCheck {
     own: &["*"],
     profile: profiles::abuse,
     rule: "one case = one hostile history (3-10 connections of random versions; ~150 inputs in bursts of up to 8: arbitrary messages of all 63 kinds from upstream's Arbitrary derive with ids redirected to live, stale and never-issued pools and payloads well-formed or garbage, wrong-direction and too-new kinds, duplicate serials, replies by strangers, interleaved with connects and all four kinds of disconnects) against the real broker; monitors: panic around every poll, quiescence within the round budget, and every delivery to every connection (abusers, bystanders, probes alike) compared with the bus model; distinct = hash of the event log",
-    quick: 12000,
-    thorough: 400_000,
+    quick: 48000,
+    thorough: 1_600_000,
     must_see: &["CallFunction", "ItemReceived", "SyncReply", "ServiceDestroyed", "ChannelEndClosed"],
 };
